@@ -1,6 +1,7 @@
 package main
 
 import (
+	"math/big"
 	"bytes"
 	"encoding/json"
 	"fmt"
@@ -92,4 +93,155 @@ func runReplay(repo, prop string, o *Obligation) (failing string, output string,
 		return "", output, true
 	}
 	return "", fmt.Sprintf("no replay harness registered for %s", prop), false
+}
+
+
+// runHarness runs an injected in-package test (overlay, private go.mod copy) and returns its output.
+func runHarness(repo, pkgDir, file, test string) (string, error) {
+	dir := filepath.Join(workDir, "harness-"+test)
+	os.MkdirAll(dir, 0o755)
+	for _, f := range []string{"go.mod", "go.sum"} {
+		b, err := os.ReadFile(filepath.Join(repo, f))
+		if err != nil {
+			return "", err
+		}
+		os.WriteFile(filepath.Join(dir, f), b, 0o644)
+	}
+	src := filepath.Join(verifDir, "replay", file)
+	target := filepath.Join(repo, pkgDir, "zz_verif_replay_test.go")
+	ov, _ := json.Marshal(map[string]interface{}{"Replace": map[string]string{target: src}})
+	ovFile := filepath.Join(dir, "overlay.json")
+	os.WriteFile(ovFile, ov, 0o644)
+	cmd := exec.Command("go", "test", "-modfile="+filepath.Join(dir, "go.mod"), "-overlay="+ovFile, "-vet=off", "-count=1",
+		"-timeout", "300s", "-v", "-run", "^"+test+"$", "./"+pkgDir)
+	cmd.Dir = repo
+	cmd.Env = append(os.Environ(), "GOFLAGS=-mod=mod", "GOPROXY=off", "GOSUMDB=off", "GOTOOLCHAIN=local")
+	var buf bytes.Buffer
+	cmd.Stdout = &buf
+	cmd.Stderr = &buf
+	err := cmd.Run()
+	return buf.String(), err
+}
+
+// keccakVectorObligations: the specification's keccak.digest, evaluated by the concrete interpreter (concrete.go) on
+// reference messages, must give the digests computed by golang.org/x/crypto/sha3 (validation of the FIPS-202
+// transcription that C03/C04 are stated against). One statically decided obligation per vector.
+func keccakVectorObligations(lib *SpecLib, repo string) ([]*Obligation, string) {
+	out, err := runHarness(repo, "prover/keccak", "C04_vectors_test.go", "TestVerifVectorsC04")
+	if err != nil {
+		return nil, "reference vectors could not be produced: " + trunc(out, 300)
+	}
+	var obls []*Obligation
+	for _, l := range strings.Split(out, "\n") {
+		fs := strings.Fields(l)
+		if len(fs) < 3 || fs[0] != "VECTOR" {
+			continue
+		}
+		dom := int64(1)
+		if fs[1] == "6" {
+			dom = 6
+		}
+		msgHex, digHex := "", fs[len(fs)-1]
+		if len(fs) == 4 {
+			msgHex = fs[2]
+		}
+		msg := hexBytes(msgHex)
+		got, err := keccakSpecDigest(lib, msg, dom)
+		ok := err == nil && fmt.Sprintf("%x", got) == digHex
+		note := fmt.Sprintf("specification gives %x, golang.org/x/crypto/sha3 gives %s", got, digHex)
+		if err != nil {
+			note = "specification could not be evaluated: " + err.Error()
+		}
+		b := ok
+		obls = append(obls, &Obligation{Name: fmt.Sprintf("spec-vector/keccak.digest(dom=%d,len=%d)", dom, len(msg)), Func: "spec:05_keccak.smt2",
+			Kind: "spec-vector", Goal: BoolLit(ok), Static: &b, Note: note})
+	}
+	if len(obls) == 0 {
+		return nil, "the reference harness printed no vectors: " + trunc(out, 300)
+	}
+	return obls, ""
+}
+
+// poseidonVectorObligations: the Poseidon specification evaluated over the repository's run-time tables must agree
+// with github.com/iden3/go-iden3-crypto on reference inputs (the tables are abstract constants in the proofs of C05).
+func poseidonVectorObligations(lib *SpecLib, repo string) ([]*Obligation, string) {
+	out, err := runHarness(repo, "prover/poseidon", "C05_vectors_test.go", "TestVerifVectorsC05")
+	if err != nil {
+		return nil, "reference vectors could not be produced: " + trunc(out, 300)
+	}
+	ce := newConcreteEval(lib)
+	tabs := map[string]map[string]map[string]*cval{}
+	type vec struct{ args []*big.Int; want *big.Int }
+	var vecs []vec
+	for _, l := range strings.Split(out, "\n") {
+		fs := strings.Fields(l)
+		if len(fs) == 0 {
+			continue
+		}
+		bi := func(s string) *big.Int { v, _ := new(big.Int).SetString(s, 10); return v }
+		switch fs[0] {
+		case "TABLE":
+			if tabs[fs[1]] == nil {
+				tabs[fs[1]] = map[string]map[string]*cval{}
+			}
+			if tabs[fs[1]][fs[2]] == nil {
+				tabs[fs[1]][fs[2]] = map[string]*cval{}
+			}
+			tabs[fs[1]][fs[2]][fs[3]] = cInt(bi(fs[4]))
+		case "HASH1":
+			vecs = append(vecs, vec{[]*big.Int{bi(fs[1])}, bi(fs[2])})
+		case "HASH2":
+			vecs = append(vecs, vec{[]*big.Int{bi(fs[1]), bi(fs[2])}, bi(fs[3])})
+		}
+	}
+	for name, rows := range tabs {
+		outer := map[string]*cval{}
+		for i, row := range rows {
+			outer[i] = &cval{k: 'a', arr: &carr{m: row}}
+		}
+		ce.consts[name] = &cval{k: 'a', arr: &carr{m: outer}}
+	}
+	var obls []*Obligation
+	for _, v := range vecs {
+		name := "poseidon.hash2"
+		var args []*cval
+		for _, a := range v.args {
+			args = append(args, cInt(a))
+		}
+		if len(v.args) == 1 {
+			name = "poseidon.hash1"
+		}
+		var got *big.Int
+		var evalErr error
+		func() {
+			defer func() {
+				if r := recover(); r != nil {
+					evalErr = fmt.Errorf("%v", r)
+				}
+			}()
+			got = ce.call(name, args).i
+		}()
+		ok := evalErr == nil && got.Cmp(v.want) == 0
+		note := fmt.Sprintf("specification over the repository's tables gives %v, iden3 gives %v", got, v.want)
+		if evalErr != nil {
+			note = "specification could not be evaluated: " + evalErr.Error()
+		}
+		b := ok
+		obls = append(obls, &Obligation{Name: fmt.Sprintf("spec-vector/%s(%v)", name, v.args), Func: "spec:02_poseidon.smt2",
+			Kind: "spec-vector", Goal: BoolLit(ok), Static: &b, Note: note})
+	}
+	if len(obls) == 0 {
+		return nil, "the reference harness printed no vectors: " + trunc(out, 300)
+	}
+	return obls, ""
+}
+
+func hexBytes(s string) []byte {
+	var out []byte
+	for i := 0; i+1 < len(s); i += 2 {
+		var b byte
+		fmt.Sscanf(s[i:i+2], "%02x", &b)
+		out = append(out, b)
+	}
+	return out
 }
